@@ -781,7 +781,10 @@ func widePatterns(rng *common.Rng, s int, sweep bool) []uint64 {
 		(uint64(1) << uint(s-1)) + 1, rng.Next(), rng.Next() | 1, 0x123456789ABCDEF1 >> uint(64-s), 0, 1}
 	if sweep {
 		for k := 1; k < s; k++ {
-			ps = append(ps, (uint64(1)<<uint(k))-1, (uint64(1)<<uint(k))+1, all<<uint(k))
+			ps = append(ps, (uint64(1)<<uint(k))-1, (uint64(1)<<uint(k))+1)
+			if k%4 == 0 {
+				ps = append(ps, all<<uint(k))
+			}
 		}
 	}
 	return ps
@@ -792,10 +795,10 @@ func widePatterns(rng *common.Rng, s int, sweep bool) []uint64 {
 func patternCases(rng *common.Rng, n int) {
 	for s := 1; s <= 32; s++ {
 		for f := 0; f <= s; f++ {
-			sweep := f == 0 || f == s-1 || f == s/2 || (s*33+f)%7 == int(common.Seed()%7)
+			sweep := f == 0 || f == s-1 || (s*33+f)%11 == int(common.Seed()%11)
 			for _, fam := range []string{"fps", "fxps"} {
 				name := fmt.Sprintf("%ss%df%d", strings.TrimSuffix(fam, "s"), s, f)
-				ps := widePatterns(rng, s, sweep && s >= 12)
+				ps := widePatterns(rng, s, sweep && s >= 16)
 				if !sweep { // keep the quick tier small: 5 patterns on the ordinary formats
 					ps = []uint64{ps[0], ps[1+rng.Intn(2)], ps[3+rng.Intn(3)], ps[6], ps[8]}
 				}
@@ -954,6 +957,18 @@ func valueLine(n *bmnumbers.BMNumber) string {
 		fmt.Fprintf(&sb, " eb=%s", strOrErr(n.ExportBinary(false)))
 		fmt.Fprintf(&sb, " ebs=%s", strOrErr(n.ExportBinary(true)))
 		fmt.Fprintf(&sb, " vb=%s", strOrErr(n.ExportVerilogBinary()))
+		if b, err := strconv.Atoi(bitsOf(n)); err == nil && b >= 1 && b <= 4096 {
+			fmt.Fprintf(&sb, " nb=%d:%s", b, strOrErr(n.ExportBinaryNBits(b)))
+		} else {
+			sb.WriteString(" nb=-")
+		}
+		if ebs, err := n.ExportBinary(true); err != nil {
+			sb.WriteString(" brt=err")
+		} else if m, _ := importG(ebs); m == nil {
+			sb.WriteString(" brt=err")
+		} else {
+			fmt.Fprintf(&sb, " brt=ok:%s:%s:%s", m.GetTypeName(), bitsOf(m), leBytes(m))
+		}
 		if eerr != nil {
 			sb.WriteString(" rt=-")
 		} else if m, st := importG(es); m == nil {
@@ -967,6 +982,7 @@ func valueLine(n *bmnumbers.BMNumber) string {
 }
 
 // V uint <w> <value> <optionalBits>      -> ImportUint(uintW(value), optionalBits)
+// V show <w> <value> <type name>         -> ImportUint(uintW(value), t.GetSize()) then CastType(t)  (simulator show path)
 // V bytes <bits> <hex big endian> <cast> -> ImportBytes(bytes, bits) then CastType to unsigned|hex|bin
 func valueCase(f []string) {
 	if len(f) < 5 {
@@ -976,6 +992,7 @@ func valueCase(f []string) {
 	res := common.Guard(func() string {
 		var n *bmnumbers.BMNumber
 		var err error
+		pre := ""
 		switch f[1] {
 		case "uint":
 			v, e1 := strconv.ParseUint(f[3], 10, 64)
@@ -995,6 +1012,34 @@ func valueCase(f []string) {
 			default:
 				return "bad-case"
 			}
+		case "show": // the simulator's show/report path: ImportUint(value, t.GetSize()); CastType(t)
+			v, e1 := strconv.ParseUint(f[3], 10, 64)
+			if e1 != nil {
+				return "bad-case"
+			}
+			bmnumbers.EventuallyCreateType(f[4], nil)
+			t := bmnumbers.GetType(f[4])
+			if t == nil {
+				return "imp=no-type"
+			}
+			pre = fmt.Sprintf("size=%d ", t.GetSize())
+			switch f[2] {
+			case "8":
+				n, err = bmnumbers.ImportUint(uint8(v), t.GetSize())
+			case "16":
+				n, err = bmnumbers.ImportUint(uint16(v), t.GetSize())
+			case "32":
+				n, err = bmnumbers.ImportUint(uint32(v), t.GetSize())
+			case "64":
+				n, err = bmnumbers.ImportUint(uint64(v), t.GetSize())
+			default:
+				return "bad-case"
+			}
+			if err == nil && n != nil {
+				if cerr := bmnumbers.CastType(n, t); cerr != nil {
+					return pre + "imp=cast-err"
+				}
+			}
 		case "bytes":
 			bits, e1 := strconv.Atoi(f[2])
 			be := []byte(unhx(f[3]))
@@ -1009,9 +1054,9 @@ func valueCase(f []string) {
 			return "bad-case"
 		}
 		if err != nil || n == nil {
-			return "imp=err"
+			return pre + "imp=err"
 		}
-		return valueLine(n)
+		return pre + valueLine(n)
 	})
 	out.Line("VC %s %s", strings.Join(f[1:5], " "), res)
 }
@@ -1040,20 +1085,71 @@ func u64Values(rng *common.Rng, n int) []uint64 {
 	return vs
 }
 
+// GetSize() of every registered type (after the spread), de-duplicated: includes -1 (any size) and 0
+func registeredSizes() []int {
+	seen := map[int]bool{}
+	var r []int
+	for _, t := range bmnumbers.AllTypes {
+		if s := t.GetSize(); !seen[s] {
+			seen[s] = true
+			r = append(r, s)
+		}
+	}
+	sort.Ints(r)
+	return r
+}
+
+// values outside the text form's reach: NaN payloads, the quantiser's non-band -2^(s-1)
+func showable(tn string, w int, m uint64) bool {
+	switch {
+	case tn == "float32":
+		return !(m&0x7f800000 == 0x7f800000 && m&0x007fffff != 0)
+	case tn == "float16":
+		return !(m&0x7c00 == 0x7c00 && m&0x03ff != 0)
+	case strings.HasPrefix(tn, "lqs"):
+		return m != uint64(1)<<uint(w-1)
+	}
+	return true
+}
+
 func cmdUints(n int) {
 	spread()
 	rng := common.NewRng(common.Seed()*2750159 + 8008)
-	for _, v := range u64Values(rng, n) {
+	setLQRanges()
+	sizes := registeredSizes()
+	showTypes := map[int][]string{
+		8:  {"unsigned", "hex", "bin", "fps8f4", "fxps8f3", "lqs8t1", "fps8f0", "lqs8t2", "hex", "bin"},
+		16: {"unsigned", "hex", "bin", "float16", "fps16f8", "fxps16f15", "lqs16t3", "hex", "bin", "float16"},
+		32: {"unsigned", "hex", "bin", "float32", "fps32f16", "fxps32f31", "lqs32t4", "hex", "bin", "float32"},
+		64: {"unsigned", "signed", "hex", "bin", "hex", "bin", "signed"},
+	}
+	for vi, v := range u64Values(rng, n) {
 		for _, w := range []int{8, 16, 32, 64} {
 			m := v
 			if w < 64 {
 				m &= (uint64(1) << uint(w)) - 1
 			}
 			ob := 0
-			if rng.Chance(1, 10) {
+			switch rng.Intn(10) {
+			case 0:
 				ob = 1 + rng.Intn(64)
+			case 1, 2: // the GetSize() of some registered type, sentinels included (-1 = any size, 0)
+				ob = sizes[rng.Intn(len(sizes))]
+			case 3:
+				ob = -1
 			}
 			valueCase([]string{"V", "uint", strconv.Itoa(w), strconv.FormatUint(m, 10), strconv.Itoa(ob)})
+			// the simulator's show path with a type that can hold a w-bit register
+			ts := showTypes[w]
+			for k := 0; k < 2; k++ {
+				tn := ts[(vi*2+k+w)%len(ts)]
+				if showable(tn, w, m) {
+					valueCase([]string{"V", "show", strconv.Itoa(w), strconv.FormatUint(m, 10), tn})
+				}
+			}
+		}
+		if vi%16 == 0 { // a type of size 0: ImportUint keeps the native width and CastType must refuse
+			valueCase([]string{"V", "show", "8", strconv.FormatUint(v&0xff, 10), []string{"fps0f0", "lqs0t0", "fxps0f0", "fps0f4"}[(vi/16)%4]})
 		}
 		// the same value through ImportBytes, as unsigned (64 bits), hex and bin
 		be := make([]byte, 8)
